@@ -198,8 +198,40 @@ kstubs! { fn c19_backend_features() {
     core::mem::forget(b);
 }}
 
-// SET_MEM_TABLE (bounded: 1..=2 regions; the loop is uniform, 255 is the accepted maximum)
-kstubs! { #[kani::unwind(4)] fn c19_set_mem_table_bounded_thorough() {
+// VhostMemory (vhost_binding.rs) byte layout for concrete table sizes: header count and region i at the UAPI offsets, nothing else
+// written. (The table size is concrete: `vec![..; count]` with a symbolic count exhausts CBMC's memory.)  set_mem_table itself is
+// verified for every region count in the Verus unit `kern` against exactly this contract of VhostMemory.
+macro_rules! vhost_memory_layout { ($name:ident, $n:expr, $unw:expr) => {
+#[kani::proof]
+#[kani::unwind($unw)]
+fn $name() {
+    let mut m = VhostMemory::new($n);
+    let i: u32 = kani::any();
+    let r = vhost_memory_region { guest_phys_addr: kani::any(), memory_size: kani::any(), userspace_addr: kani::any(), flags_padding: kani::any() };
+    let res = m.set_region(i, &r);
+    assert!(res.is_ok() == (i < $n as u32));
+    let base = m.as_ptr() as *const u8;
+    let rd32 = |o: usize| unsafe { core::ptr::read_unaligned(base.add(o) as *const u32) };
+    let rd64 = |o: usize| unsafe { core::ptr::read_unaligned(base.add(o) as *const u64) };
+    assert!(rd32(OFF_vhost_memory_nregions) == $n as u32);
+    let j: usize = kani::any();
+    kani::assume(j < $n as usize);
+    let o = OFF_vhost_memory_regions + SZ_vhost_memory_region * j;
+    if res.is_ok() && j == i as usize {
+        assert!(rd64(o + OFF_vhost_memory_region_guest_phys_addr) == r.guest_phys_addr && rd64(o + OFF_vhost_memory_region_memory_size) == r.memory_size
+            && rd64(o + OFF_vhost_memory_region_userspace_addr) == r.userspace_addr && rd64(o + OFF_vhost_memory_region_flags_padding) == r.flags_padding);
+    } else {
+        assert!(rd64(o + OFF_vhost_memory_region_guest_phys_addr) == 0 && rd64(o + OFF_vhost_memory_region_memory_size) == 0
+            && rd64(o + OFF_vhost_memory_region_userspace_addr) == 0 && rd64(o + OFF_vhost_memory_region_flags_padding) == 0);
+    }
+    core::mem::forget(m);
+}};}
+vhost_memory_layout!(c19_vhost_memory_layout_1_bounded, 1u16, 7);
+vhost_memory_layout!(c19_vhost_memory_layout_2_bounded, 2u16, 11);
+vhost_memory_layout!(c19_vhost_memory_layout_3_bounded, 3u16, 15);
+
+// NOT REGISTERED: exhausts CBMC's memory (> 30 GB) even for one region; replaced by unit `kern` (Verus) + the layout harnesses above
+kstubs! { #[kani::unwind(4)] fn x19_set_mem_table_bounded() {
     setup(); let b = kb();
     let n: usize = kani::any();
     kani::assume(n == 1);
